@@ -220,4 +220,22 @@ theorem validators_sem (P : Prims) (q : ℚ) :
        ("_validate_total_expansion", if q = 0 then .error .value else .ok 0)] := by
   by_cases h1 : q ≤ 0 <;> by_cases h2 : q = 0 <;> simp only [validatorBodies] <;> run_simp
 
+/-! ### `Chop.invert` -/
+
+theorem invertBody_source : encIBody invertBody = CBV.Gen.c03InvertBody := by decide +kernel
+
+/-- the statements of `Chop.invert`, run in source order, give the inverted fields and the moved `preserve`; when a
+    reciprocal raises, the half-inverted record `invertLeft` (sizes swapped, the ratios before the failing one
+    inverted) is what stays behind -/
+theorem runI_invert (v : Vals) (p : Q) :
+    runI invertBody (v, p) =
+      match invert v with
+      | .ok w => ((w, swapPreserve p), none)
+      | .error e => ((invertLeft v, p), some e) := by
+  obtain ⟨n, s, e, c, T⟩ := v
+  rcases c with _ | c <;> rcases T with _ | T <;> cases p <;>
+    (try by_cases hc : c = 0) <;> (try by_cases hT : T = 0) <;>
+    simp [runI, invertBody, fieldQ, Q.ofString?, Vals.setOpt, Vals.get, invert, invertLeft, swapPreserve, Q.name,
+      List.find?, pure, Except.pure, *]
+
 end CBV.C03
